@@ -39,6 +39,12 @@ class AstToSqlAlchemyCoreVisitor(common._CommonVisitors, visitor.NodeVisitor):
         right = self.visit(node.right)
         op = self.visit(node.comparator)
 
+        if isinstance(node.comparator, (ast.Lt, ast.LtE, ast.Gt, ast.GtE)) and (
+            isinstance(node.left, ast.Null) or isinstance(node.right, ast.Null)
+        ):
+            # SQLAlchemy only accepts '=' and '!=' against NULL:
+            raise ex.TypeException(node.comparator.__class__.__name__, "null")
+
         # 'null eq x' means the same as 'x eq null', SQLAlchemy only renders
         # 'IS [NOT] NULL' if NULL is on the right-hand side:
         if isinstance(node.left, ast.Null) and isinstance(
